@@ -304,6 +304,42 @@ pub struct GenOpts {
     pub count: Option<usize>,
 }
 
+/// frames of every kind that has a track or car field, one per row of the two name tables (every declared track
+/// configuration, every built-in car, unknown, a few mod ids)
+pub fn name_table_frames(ls: &Layouts, compressed: bool) -> Vec<Vec<u8>> {
+    let mut out = vec![];
+    for l in ls.kinds.iter() {
+        let fields = l["fields"].as_array().cloned().unwrap_or_default();
+        if !fields.iter().any(|f| f["ty"]["id"] == "Track" || f["ty"]["id"] == "Vehicle") { continue; }
+        let base = gen_frame(&mut Rng::new(7), l, compressed, &GenOpts { wild: 0, text: 0, count: Some(1) });
+        let mut off = 2usize;
+        for f in &fields {
+            off += f["rb"].as_u64().unwrap_or(0) as usize;
+            let w = ty_size(&f["ty"]);
+            let mut variants: Vec<Vec<u8>> = vec![];
+            if f["ty"]["id"] == "Track" { for c in all_track_codes() { let mut b = c.as_bytes().to_vec(); b.resize(6, 0); variants.push(b); } }
+            if f["ty"]["id"] == "Vehicle" {
+                for n in ["XFG", "XRG", "XRT", "RB4", "FXO", "LX4", "LX6", "MRT", "UF1", "RAC", "FZ5", "FOX", "XFR", "UFR", "FO8", "FXR", "XRR", "FZR", "BF1", "FBM"] { variants.push(vec![n.as_bytes()[0], n.as_bytes()[1], n.as_bytes()[2], 0]); }
+                for v in [0u32, 1, 0x00AB_CDEF, 0x00FF_FFFF, 0x0100_0000, 0x8047_4658, 0xFFFF_FFFF] { variants.push(v.to_le_bytes().to_vec()); }
+            }
+            for v in variants {
+                if off + w > base.len() { break; }
+                let mut fr = base.clone();
+                fr[off..off + v.len()].copy_from_slice(&v);
+                out.push(fr);
+            }
+            off += w + f["ra"].as_u64().unwrap_or(0) as usize;
+        }
+    }
+    out
+}
+
+/// the short code of every declared track configuration, from the enum's variant names (generated list), in capitals
+pub fn all_track_codes() -> &'static Vec<String> {
+    use std::sync::OnceLock;
+    static V: OnceLock<Vec<String>> = OnceLock::new();
+    V.get_or_init(|| crate::gen_tracks::tracks().iter().map(|t| format!("{:?}", t).to_uppercase()).collect())
+}
 const TRACK_CODES: [&str; 8] = ["BL1", "BL2R", "SO1X", "FE4Y", "AS7", "KY3R", "RO11X", "LA2"];
 const VEH_NAMES: [&str; 6] = ["XFG", "XRT", "FZ5", "BF1", "UF1", "FBM"];
 
@@ -347,7 +383,17 @@ pub fn gen_field(rng: &mut Rng, ty: &Value, o: &GenOpts, count: usize, out: &mut
             out.extend_from_slice(&v.to_le_bytes()[..w]);
         },
         // raw (UTF-8) fields get ASCII only: codepage bytes are not valid UTF-8 and would not be representable text there
-        "str" => out.extend_from_slice(&gen_text(rng, ty_size(ty), if ty["rraw"].as_bool() == Some(true) { 0 } else { o.text })),
+        "str" => if ty["rraw"].as_bool() == Some(true) && o.text != 0 {
+            // a raw field carries the string's own (UTF-8) bytes: non-ASCII text, cut at a character boundary, NUL-padded
+            let w = ty_size(ty);
+            let t = *rng.pick(&["p\u{e4}ssw\u{f6}rd", "\u{43f}\u{430}\u{440}\u{43e}\u{43b}\u{44c}", "\u{30d1}\u{30b9}", "caf\u{e9}", "\u{11b}\u{161}\u{10d} x", "\u{20ac}"]);
+            let mut b = t.as_bytes().to_vec();
+            while b.len() > w || std::str::from_utf8(&b).is_err() { let _ = b.pop(); }
+            b.resize(w, 0);
+            out.extend_from_slice(&b);
+        } else {
+            out.extend_from_slice(&gen_text(rng, ty_size(ty), if ty["rraw"].as_bool() == Some(true) { 0 } else { o.text }))
+        },
         "custom" => match ty["id"].as_str().unwrap_or("") {
             "Vehicle" => match rng.below(4) {
                 0 => { let n = rng.pick(&VEH_NAMES).as_bytes(); out.extend_from_slice(&[n[0], n[1], n[2], 0]); },
@@ -363,7 +409,8 @@ pub fn gen_field(rng: &mut Rng, ty: &Value, o: &GenOpts, count: usize, out: &mut
                     _ => out.extend_from_slice(&(rng.next() as u32 | 0x0100_0000).to_le_bytes()),
                 },
             },
-            "Track" => { let mut t = if wild { b"ZZ9".to_vec() } else { rng.pick(&TRACK_CODES).as_bytes().to_vec() }; t.resize(6, 0); out.extend_from_slice(&t); },
+            // every declared configuration (the short code is the variant's name in capitals), not a favourite few
+            "Track" => { let mut t = if wild { b"ZZ9".to_vec() } else if rng.chance(1, 4) { rng.pick(&TRACK_CODES).as_bytes().to_vec() } else { all_track_codes()[rng.below(all_track_codes().len() as u64) as usize].as_bytes().to_vec() }; t.resize(6, 0); out.extend_from_slice(&t); },
             "RaceLaps" | "Fuel" | "Fuel200" => out.push(*rng.pick(&[0u8, 1, 50, 99, 100, 150, 190, 191, 238, 239, 254, 255])),
             "ConInfo" => { for i in 0..16 { out.push(if i == 2 { 0 } else { rng.byte() }); } },
             "SmallType" => { out.push(if wild { rng.byte() } else { rng.below(11) as u8 }); let v = match rng.below(4) { 0 => 0u32, 1 => u32::MAX, 2 => rng.below(4) as u32, _ => rng.next() as u32 }; out.extend_from_slice(&v.to_le_bytes()); },
